@@ -42,7 +42,7 @@ def r02c(model: Model, rr: RuleResult):
         setters = [c for c in calls_in(fi) if callee_tail(c) == "set" and c.args and norm(c.args[0]) in ("'id'", '"id"')]
         if setters:
             raise AnalysisError("_add_glyph: id is set through an idiom the rule does not enumerate (.set('id', ...))")
-        rr.bad(fi, uses[0], "no statement gives the referenced element an id before a <use href='#...'> to it is created: the href dangles",
+        rr.bad_shape(fi, uses[0], "no statement gives the referenced element an id before a <use href='#...'> to it is created: the href dangles",
                construct="_add_glyph: no id assignment for reused_el")
         return
     if len(ids) != 1 or len(asserts) != 1:
@@ -68,15 +68,22 @@ def r02c(model: Model, rr: RuleResult):
         if len(hrefs) == 1 and norm(hrefs[0].value) == "f'#{reuse_result.glyph_name}'":
             rr.ok(f"{fn}: href = '#' + reuse_result.glyph_name")
         else:
-            rr.bad(f2, f2.node, f"{fn}: the <use> href is not '#' + the reuse result's glyph name", construct=f"{fn}: href")
+            rr.bad_shape(f2, f2.node, f"{fn}: the <use> href is not '#' + the reuse result's glyph name", construct=f"{fn}: href")
     # _create_use_element: x/y hold the translation and the matrix what is left after removing it
     cu = model.func("svg", "_create_use_element")
-    txt = [norm(st) for st in cu.body]
-    if any("tx, ty = transform.gettranslate()" in t for t in txt) and any("transform = transform.translate(-tx, -ty)" in t for t in txt) \
-            and any("svg_use.attrib['x'] = _ntos(tx)" in norm(st) for st in walk_body(cu)) and any("svg_use.attrib['y'] = _ntos(ty)" in norm(st) for st in walk_body(cu)):
+    ccfg = cfg_of(cu)
+    from ..dataflow import resolved_text
+    got = {}
+    for st in walk_body(cu):
+        if isinstance(st, ast.Assign) and isinstance(st.targets[0], ast.Subscript) and norm(st.targets[0].value).endswith(".attrib") and isinstance(st.targets[0].slice, ast.Constant):
+            got[st.targets[0].slice.value] = resolved_text(ccfg, ccfg.node_for(st), st.value)
+    T = "reuse_result.transform"
+    want = {"x": f"_ntos({T}.gettranslate()[0])", "y": f"_ntos({T}.gettranslate()[1])",
+            "transform": f"_svg_matrix({T}.translate(-{T}.gettranslate()[0], -{T}.gettranslate()[1]))"}
+    if all(got.get(k) == v for k, v in want.items()):
         rr.ok("_create_use_element: x/y = translation of the reuse transform; matrix = transform with that translation removed")
     else:
-        rr.bad(cu, cu.node, "_create_use_element does not split the reuse transform into x/y + residual matrix consistently", construct="_create_use_element: x/y/matrix")
+        rr.bad_shape(cu, cu.node, "_create_use_element does not split the reuse transform into x/y + residual matrix consistently", construct="_create_use_element: x/y/matrix")
     # attribute migration from <use> to target only when all uses agree
     tfi = model.func("svg", "_tidy_use_elements")
     tcfg = cfg_of(tfi)
@@ -89,7 +96,7 @@ def r02c(model: Model, rr: RuleResult):
     if need_all and need_one:
         rr.ok("paint attribute moves from <use> to its target only if every use carries it and all values are equal")
     else:
-        rr.bad(tfi, mig[0], "a paint attribute is moved from <use> elements to the shared target without requiring that all uses carry the same value: "
+        rr.bad_shape(tfi, mig[0], "a paint attribute is moved from <use> elements to the shared target without requiring that all uses carry the same value: "
                "other users of the target would change colour", construct=f"target.attrib[attr_name] = values[0] under {facts}")
     # ... and only onto a target that is not itself rendered (one parked in <defs>): a target drawn in place would be repainted
     allf = [(norm(e), pol) for e, pol in guard_facts(tcfg, tcfg.node_for(mig[0]))]
@@ -114,7 +121,7 @@ def r02c(model: Model, rr: RuleResult):
     if dup and "attr_value == reused_el.attrib.get(attr_name)" in norm(dup[0]):
         rr.ok("a <use> attribute is dropped only when the target already has the same value")
     else:
-        rr.bad(tfi, tfi.node, "<use> attributes are dropped without comparing with the target's value", construct="_tidy_use_elements: duplicate_attrs")
+        rr.bad_shape(tfi, tfi.node, "<use> attributes are dropped without comparing with the target's value", construct="_tidy_use_elements: duplicate_attrs")
     # cross-glyph reuse goes through <defs> (Illustrator rule) -- shared with C07/R07d
     mig_calls = find_calls(fi, "_migrate_to_defs")
     if len(mig_calls) == 1:
@@ -122,7 +129,7 @@ def r02c(model: Model, rr: RuleResult):
         if any("color_glyph.ufo_glyph_name != _color_glyph_name(" in f for f in facts):
             rr.ok("_migrate_to_defs is taken when the reused element belongs to another colour glyph")
         else:
-            rr.bad(fi, mig_calls[0], "reuse across glyphs is not forced through <defs>", construct=f"_migrate_to_defs under {facts[-2:]}")
+            rr.bad_shape(fi, mig_calls[0], "reuse across glyphs is not forced through <defs>", construct=f"_migrate_to_defs under {facts[-2:]}")
         # second reason: the target carries any paint attribute at all (a <use> can neither override nor unset what its target declares)
         tests = [e for e, pol in guard_facts(cfg, cfg.node_for(mig_calls[0])) if isinstance(e, ast.BoolOp) and isinstance(e.op, ast.Or)]
         disj = [v for t in tests for v in t.values]
@@ -131,7 +138,7 @@ def r02c(model: Model, rr: RuleResult):
         if bare and not narrowed:
             rr.ok("_migrate_to_defs is also taken whenever the reused element has any attribute _apply_paint may set")
         else:
-            rr.bad(fi, mig_calls[0], f"the 'target has paint attributes' reason for moving the target to <defs> is narrowed to {[short(v, 80) for v in narrowed] or 'nothing'}: a later "
+            rr.bad_shape(fi, mig_calls[0], f"the 'target has paint attributes' reason for moving the target to <defs> is narrowed to {[short(v, 80) for v in narrowed] or 'nothing'}: a later "
                    f"copy that sets none of the target's attributes (a plain black copy of a yellow box, an opaque copy of a 30% shadow) inherits them, since <use> cannot unset them",
                    construct="_add_glyph: _migrate_to_defs condition on target attributes narrowed")
 
@@ -168,7 +175,7 @@ def r02d(model: Model, rr: RuleResult):
             if base.startswith(f"{mapping.id}[") and [d.node for d in cfg.reaching(at, mapping.id)] == [d.node for d in mdefs]:
                 rr.ok(f"glyph id read as {short(n, 50)} from the renumbered mapping")
             else:
-                rr.bad(fi, n, f"glyph id read from {base}, not from the renumbered mapping {mapping.id}[...]: document ranges would use stale ids", construct=short(n, 80))
+                rr.bad_shape(fi, n, f"glyph id read from {base}, not from the renumbered mapping {mapping.id}[...]: document ranges would use stale ids", construct=short(n, 80))
     adds = find_calls(fi, "_add_glyph")
     for c in adds:
         at = cfg.node_for(c)
@@ -189,9 +196,9 @@ def r02d(model: Model, rr: RuleResult):
         if len(gd) == 1 and "for g in group" in norm(gd[0].value):
             rr.ok("document range = (min(gids), max(gids)) of the group being emitted")
         else:
-            rr.bad(fi, app[0], "gids is not computed from the group being emitted", construct="gids definition")
+            rr.bad_shape(fi, app[0], "gids is not computed from the group being emitted", construct="gids definition")
     else:
-        rr.bad(fi, fi.node, "document range is not (min(gids), max(gids))", construct="doc_list.append")
+        rr.bad_shape(fi, fi.node, "document range is not (min(gids), max(gids))", construct="doc_list.append")
     # renumbering: append + _replace(glyph_id=gid) + gid += 1 for the same glyph name, then reorder_glyphs
     efi = model.func("svg", "_ensure_groups_grouped_in_glyph_order")
     inner = None
@@ -284,12 +291,12 @@ def r02e(model: Model, rr: RuleResult):
     if len(app) == 1 and isinstance(app[0].args[0], ast.Tuple) and [norm(x) for x in app[0].args[0].elts[1:]] == ["color_glyph.glyph_id", "color_glyph.glyph_id"]:
         rr.ok("raw documents cover exactly their own glyph id")
     else:
-        rr.bad(rfi, rfi.node, "raw document range is not (glyph_id, glyph_id)", construct="_rawsvg_docs: range")
+        rr.bad_shape(rfi, rfi.node, "raw document range is not (glyph_id, glyph_id)", construct="_rawsvg_docs: range")
     ids = [n for n in walk_body(rfi) if isinstance(n, ast.Dict) and any(isinstance(k, ast.Constant) and k.value == "id" for k in n.keys)]
     if ids and "f'glyph{color_glyph.glyph_id}'" in norm(ids[0]):
         rr.ok("raw document wraps content in <g id='glyph<ID>'>")
     else:
-        rr.bad(rfi, rfi.node, "raw document group id is not glyph<ID>", construct="_rawsvg_docs: id")
+        rr.bad_shape(rfi, rfi.node, "raw document group id is not glyph<ID>", construct="_rawsvg_docs: id")
     afi = model.func("svg", "_add_glyph")
     gid = [st for st in walk_body(afi) if isinstance(st, ast.Assign) and norm(st.targets[0]) == "svg_g.attrib['id']"]
     if gid and norm(gid[0].value) == "f'glyph{color_glyph.glyph_id}'":
